@@ -47,6 +47,14 @@ def str_axioms(terms):
 
 class Unsupported(Exception): pass
 
+def dict_kinds(kind):
+    """'dict[K,V]' -> (K, V)"""
+    assert kind.startswith('dict['), kind
+    inner = kind[5:-1]; k, v = inner.split(',', 1); return k.strip(), v.strip()
+def dkeys_field(k): return '$dkeys:' + k
+def dhas_field(k): return '$dhas:' + k
+def dmap_field(k, v): return '$dmap:' + k + ':' + ({'int': 'int', 'bool': 'bool', 'str': 'str'}.get(v, 'ref'))
+
 def sort_of(kind):
     if kind == 'int': return I
     if kind == 'bool': return Bo
@@ -76,7 +84,12 @@ class Heap:
     def copy(self): return Heap(self.fields, self.f, self.alloc)
     def fsort(self, name):
         if name == '$len': return I
-        if name.startswith('$items:'): return z3.ArraySort(I, {'int': I, 'bool': Bo, 'str': Str, 'ref': Ref}[name[7:]])
+        S_ = {'int': I, 'bool': Bo, 'str': Str, 'ref': Ref}
+        if name.startswith('$items:'): return z3.ArraySort(I, S_[name[7:]])
+        if name.startswith('$dkeys:'): return z3.ArraySort(I, S_[name[7:]])
+        if name.startswith('$dhas:'): return z3.ArraySort(S_[name[6:]], Bo)
+        if name.startswith('$dmap:'):
+            _, k_, v_ = name.split(':'); return z3.ArraySort(S_[k_], S_[v_])
         return sort_of(self.fields[name])
     def arr(self, name):
         if name not in self.f: self.f[name] = z3.Array('H_' + name, Ref, self.fsort(name))
@@ -189,12 +202,30 @@ class Engine:
         p.pc.append(Implies(b, And(0 <= w, w < n, it[w] == x)))
         p.facts.append(Schematic(1, lambda k, b=b, it=it, n=n, x=x: Implies(And(0 <= k, k < n, it[k] == x), b), 'in-def'))
         return b
+    # -------------------------------------------------------------------------------------------- dicts (insertion ordered)
+    def dparts(self, v, p):
+        K, Vk = dict_kinds(v.kind); h = p.heap
+        return K, Vk, h.load(v.term, dkeys_field(K)), h.load(v.term, dhas_field(K)), h.load(v.term, dmap_field(K, Vk)), h.load(v.term, '$len')
+    def newdict(self, kind, p):
+        K, Vk = dict_kinds(kind); r = p.heap.new(p, 'dict')
+        p.heap.store(r, dkeys_field(K), fresh('dk', p.heap.fsort(dkeys_field(K)))); p.heap.store(r, '$len', z3.IntVal(0))
+        p.heap.store(r, dhas_field(K), z3.K(sort_of(K), z3.BoolVal(False))); p.heap.store(r, dmap_field(K, Vk), fresh('dm', p.heap.fsort(dmap_field(K, Vk))))
+        return V(kind, r)
+    def dget(self, v, k, p, line):
+        K, Vk, keys, has, mp, n = self.dparts(v, p)
+        self.emit(p, f'no-KeyError@{line}', has[k.term], line); p.pc.append(has[k.term])
+        return self.mk(Vk, mp[k.term])
+    def dset(self, v, k, val, p, line):
+        K, Vk, keys, has, mp, n = self.dparts(v, p); h = p.heap; r = v.term; present = has[k.term]
+        for fld in (dkeys_field(K), dhas_field(K), dmap_field(K, Vk), '$len'): self.frame(p, r, fld, line)
+        h.store(r, dkeys_field(K), If(present, keys, z3.Store(keys, n, k.term))); h.store(r, '$len', If(present, n, n + 1))
+        h.store(r, dhas_field(K), z3.Store(has, k.term, True)); h.store(r, dmap_field(K, Vk), z3.Store(mp, k.term, val.term))
     # -------------------------------------------------------------------------------------------- truthiness
     def truth(self, v, p):
         if v.kind == 'bool': return v.term
         if v.kind == 'int': return v.term != 0
         if v.kind == 'none': return z3.BoolVal(False)
-        if v.kind.startswith('list['): return self.llen(v, p) != 0
+        if v.kind.startswith('list[') or v.kind.startswith('dict['): return p.heap.llen(v.term) != 0
         if v.kind == 'str': return slen(v.term) != 0
         if v.kind == 'ref': return v.term != NULL
         if v.kind == 'pyconst': return z3.BoolVal(bool(v.kw['value']))
@@ -214,6 +245,7 @@ class Engine:
         if isinstance(e, ast.Attribute):
             d = self.dotted(e)
             if d in self.spec.consts: return vint(self.spec.consts[d])
+            if d in getattr(self.spec, 'str_consts', {}): return V('str', strlit(self.spec.str_consts[d]))
             b = self.ev(e.value, p)
             if b.kind == 'ref':
                 if e.attr not in self.fields: raise Unsupported(f'field {e.attr} has no declared kind')
@@ -223,6 +255,8 @@ class Engine:
         if isinstance(e, ast.Compare):
             if len(e.ops) != 1: raise Unsupported('chained comparison')
             op = type(e.ops[0]); a = self.ev(e.left, p); b = self.ev(e.comparators[0], p)
+            if op in (ast.In, ast.NotIn) and b.kind.startswith('dict['):
+                K, Vk, keys, has, mp, n = self.dparts(b, p); t = has[a.term]; return vbool(t if op is ast.In else Not(t))
             if op in (ast.In, ast.NotIn):
                 if not b.kind.startswith('list['): raise Unsupported('in on ' + b.kind)
                 t = self.contains(b, a.term, p); return vbool(t if op is ast.In else Not(t))
@@ -303,6 +337,7 @@ class Engine:
                 if isinstance(e.slice, ast.Slice): raise Unsupported('slice')
                 i = self.ev(e.slice, p); return self.lget(b, i.term, p, e.lineno)
             if b.kind == 'tuple': return b.kw['elts'][e.slice.value]
+            if b.kind.startswith('dict['): return self.dget(b, self.ev(e.slice, p), p, e.lineno)
             raise Unsupported('subscript of ' + b.kind)
         if isinstance(e, ast.Call): return self.call(e, p)
         if isinstance(e, ast.JoinedStr): return V('str', fresh('fstring', Str))
@@ -320,6 +355,9 @@ class Engine:
             if len(args) == 2: return V('range', None, lo=self.ev(args[0], p).term, hi=self.ev(args[1], p).term)
             raise Unsupported('range step')
         if d == 'enumerate': return V('enumerate', None, lst=self.ev(args[0], p))
+        if isinstance(f, ast.Attribute) and f.attr in ('items', 'values', 'keys') and not args:
+            recv0 = self.ev(f.value, p)
+            if recv0.kind.startswith('dict['): return V('dictiter', None, d=recv0, mode=f.attr)
         if d == 'max' and len(args) == 2:
             a, b = self.ev(args[0], p).term, self.ev(args[1], p).term; return vint(If(a >= b, a, b))
         if d == 'min' and len(args) == 2:
@@ -409,7 +447,9 @@ class Engine:
             self.frame(p, b.term, tgt.attr, tgt.lineno)
             p.heap.store(b.term, tgt.attr, val.term); return
         if isinstance(tgt, ast.Subscript):
-            b = self.ev(tgt.value, p); i = self.ev(tgt.slice, p); self.lset(b, i.term, val, p, tgt.lineno); return
+            b = self.ev(tgt.value, p); i = self.ev(tgt.slice, p)
+            if b.kind.startswith('dict['): self.dset(b, i, val, p, tgt.lineno); return
+            self.lset(b, i.term, val, p, tgt.lineno); return
         if isinstance(tgt, ast.Tuple) and val.kind == 'tuple':
             for t, v in zip(tgt.elts, val.kw['elts']): self.assign(t, v, p)
             return
@@ -460,6 +500,19 @@ class Engine:
             c = self.truth(self.ev(s.test, p), p); a, b = p.fork(), p.fork(); a.pc.append(c); b.pc.append(Not(c))
             return self.block(s.body, a) + (self.block(s.orelse, b) if s.orelse else [Outcome('next', b)])
         if isinstance(s, ast.For): return self.loop(s, p)
+        if isinstance(s, ast.Try):
+            if s.finalbody or s.orelse: raise Unsupported('try/finally/else')
+            outs = []
+            for o in self.block(s.body, p):
+                if o.kind.startswith('raise:'):
+                    exc = o.kind[6:].split('.')[-1]; handled = False
+                    for hnd in s.handlers:
+                        names = [] if hnd.type is None else ([self.dotted(t).split('.')[-1] for t in hnd.type.elts] if isinstance(hnd.type, ast.Tuple) else [self.dotted(hnd.type).split('.')[-1]])
+                        if hnd.type is None or exc in names or 'Exception' in names:
+                            outs += self.block(hnd.body, o.path); handled = True; break
+                    if not handled: outs.append(o)
+                else: outs.append(o)
+            return outs
         if isinstance(s, ast.Break): return [Outcome('break', p)]
         if isinstance(s, ast.Continue): return [Outcome('continue', p)]
         raise Unsupported(ast.dump(s)[:120])
@@ -501,6 +554,14 @@ class Engine:
         elif it.kind.startswith('list['):
             lst = it; n = self.llen(lst, p)
             bindf = lambda q, i, lst=lst: self.assign(s.target, self.mk(elem_kind(lst.kind), self.litems(lst, q)[i]), q)
+        elif it.kind == 'dictiter' or it.kind.startswith('dict['):
+            dv = it.kw['d'] if it.kind == 'dictiter' else it; mode = it.kw['mode'] if it.kind == 'dictiter' else 'keys'
+            K, Vk, keys0, has0, mp0, n = self.dparts(dv, p)
+            def bindf(q, i, dv=dv, mode=mode):
+                K, Vk, keys, has, mp, _ = self.dparts(dv, q); kv = self.mk(K, keys[i]); vv = self.mk(Vk, mp[keys[i]])
+                if mode == 'items': self.assign(s.target.elts[0], kv, q); self.assign(s.target.elts[1], vv, q)
+                elif mode == 'values': self.assign(s.target, vv, q)
+                else: self.assign(s.target, kv, q)
         else: raise Unsupported('loop over ' + it.kind)
         # NOTE: n is the length at loop entry; a body that changes the length of the iterated list is outside the subset
         pre = p.fork()
